@@ -1,6 +1,6 @@
 (* C07 - honest keypers agree on the eon key despite Byzantine participants.
    This file only states the theorems; proofs are in Proofs/DKGPure.v, Proofs/DKGChain.v,
-   Proofs/DKGAlgebra.v; the concrete instance of the examples is Proofs/DKGExamples.v.
+   Proofs/DKGLive.v, Proofs/DKGLiveRun.v, Proofs/DKGAlgebra.v; the concrete instance of the examples is Proofs/DKGExamples.v.
 
    Models: Model/DKGPure.v (shlib/puredkg, a dependency, modelled), Model/DKGDriver.v
    (keyper/smobserver: smstate.go and the block transaction of smdriver.go).  All definitions are
@@ -25,6 +25,7 @@ From mathcomp Require Import all_ssreflect all_algebra.
 From Verif Require Import Lib.Bytes Lib.Lagrange.
 From Verif Require Import Model.DKGPure Model.DKGDriver.
 From Verif Require Import Proofs.DKGPure Proofs.DKGChain Proofs.DKGAlgebra Proofs.DKGExamples Proofs.EpochKGAlgebra.
+From Verif Require Import Proofs.DKGLive Proofs.DKGLiveRun Proofs.DKGLiveExamples.
 From Verif Require Import Generated.DkgPhase Proofs.DkgPhase.
 Import GRing.Theory.
 Local Open Scope ring_scope.
@@ -144,14 +145,12 @@ Example C07_share_matches_nonvacuous i :
   share_rel (seq rat) rat (@f_verify [fieldType of rat] 2) i ex_cs (ex_vs i).
 Proof. exact: example_share_rel. Qed.
 
-(* Liveness, partial.  Proved, for every instance of the values: a keyper whose instance holds,
-   at the end of the dealing phase, a commitment from every dealer and an evaluation that
-   verifies against it (dealt_ok) sends no accusation; if no accusation and no apology is on the
-   chain, it reports success.  Missing: the step from "every keyper is honest and its commitment
-   and evaluations were included in dealing-phase blocks" to dealt_ok of the stored state and to
-   the absence of accusations on the chain is not proved over block sequences here; the
-   differential run checks that clause end to end (oracle key C07:honest-run-fails). *)
-Theorem C07_honest_run_succeeds_partial :
+(* Liveness at the level of one instance, for every instance of the values: a keyper whose
+   instance holds, at the end of the dealing phase, a commitment from every dealer and an
+   evaluation that verifies against it (dealt_ok) sends no accusation; if no accusation and no
+   apology is recorded, it reports success.  (C07_honest_run_succeeds below derives dealt_ok and
+   the empty accusation / apology lists from the blocks.) *)
+Theorem C07_honest_instance_succeeds :
   forall (C E P : Type) (verify : nat -> E -> C -> bool) (d : pure C E P),
   p_phase d = Dealing -> dealt_ok C E P verify d -> p_accs d = nil -> p_apos d = nil ->
   N.le (p_t d) (N.of_nat (p_n d)) ->
@@ -161,13 +160,113 @@ Proof.
   move=> C E P verify d Hp Hd Ha Hq Ht; split; first exact: start_phase2_no_accusations.
   exact: honest_instance_succeeds.
 Qed.
-Print Assumptions C07_honest_run_succeeds_partial.
+Print Assumptions C07_honest_instance_succeeds.
 
-Example C07_honest_run_succeeds_partial_nonvacuous :
+Example C07_honest_instance_succeeds_nonvacuous :
   p_phase DkgEx.d_dealt = Dealing /\ dealt_ok DkgEx.C DkgEx.E DkgEx.P DkgEx.verify DkgEx.d_dealt /\
   p_accs DkgEx.d_dealt = nil /\ p_apos DkgEx.d_dealt = nil /\
   N.le (p_t DkgEx.d_dealt) (N.of_nat (p_n DkgEx.d_dealt)).
 Proof. split; first by []. split; first exact DkgEx.d_dealt_ok. by []. Qed.
+
+(* Liveness over block sequences.  Vocabulary (Proofs/DKGLiveRun.v):
+     live e a0 ph x a      in state x the keyper holds the instance a of eon e (cache synchronised,
+                           eon row stored, no result row yet), a is in phase ph with no accusation
+                           and no apology recorded, and a keeps what a0 held
+     deal ... e ks start t i allev seen a
+                           a started at height start for the keypers ks with threshold t, this
+                           keyper has index i; every commitment a holds is that of an event of
+                           allev from the dealer of the slot, every evaluation other than the own
+                           one likewise; every admissible commitment / evaluation of seen has
+                           filled its slot
+     quiet e evs           evs contains no accusation and no apology for eon e
+     success e x           the result row of eon e in x is (true, CResult _ _)
+   The keyper is, at height h0 in the dealing phase of eon e, in a state x0 with an instance a0
+   that holds its own evaluation and otherwise only values from the chain - the state the event
+   that starts the eon produces (C07_eon_start_creates_dealing_instance) - and then processes
+   consecutive blocks up to at least the height at which the eon is finalised, none failing, for
+   any phase length, enumeration and event contents.  If every dealer's commitment (of admissible
+   degree) and, for every other dealer, a message with a valid evaluation for this keyper are in
+   blocks of the dealing phase, commitments / evaluations of one dealer on the chain are unique,
+   every evaluation verifies against the dealer's commitment, the chain carries no accusation and
+   no apology for the eon and t <= n, then the keyper stores a successful result.
+   (Events for other eons, configs, check-ins, duplicates, late messages are arbitrary.) *)
+Theorem C07_honest_run_succeeds :
+  forall (C E P : Type) (commit_of : P -> C) (eval_of : P -> nat -> E) (verify : nat -> E -> C -> bool)
+         (deg_ok : N -> C -> bool) (valid_eval : E -> bool) (me : addr) (L : Z), Z.lt 0 L ->
+  forall (enum : list (N * active C E P) -> list (N * active C E P)), enum_keys_ok C E P enum ->
+  forall (poly_for : N -> P) (e : N) (ks : list addr) (start : Z) (t : N) (i : nat) (allev : list (dev C E))
+         (a0 : active C E P) (x0 : st C E P) (h0 : Z) (lch : Z -> Z) (blocks : list (Z * list (dev C E)))
+         (xf : st C E P) (cj : nat -> C) (vj : nat -> E),
+  List.incl (List.concat (List.map snd blocks)) allev ->
+  live C E P e a0 Dealing x0 a0 ->
+  deal C E P deg_ok valid_eval me e ks start t i allev nil a0 ->
+  nth_opt (p_evals (a_pure a0)) i = Some (vj i) ->
+  p_n (a_pure a0) = List.length ks ->
+  N.le t (N.of_nat (List.length ks)) ->
+  Z.le start h0 /\ Z.lt h0 (Z.add start L) ->
+  (forall k b, List.nth_error blocks k = Some b -> fst b = Z.add (Z.add h0 1) (Z.of_nat k)) ->
+  Z.le (Z.add start (Z.mul 3 L)) (Z.add h0 (Z.of_nat (List.length blocks))) ->
+  run_blocks C E P commit_of eval_of verify deg_ok valid_eval me L enum poly_for lch x0 blocks = Some xf ->
+  quiet C E e allev ->
+  (forall s s' c c', List.In (DCommit s e c) allev -> List.In (DCommit s' e c') allev ->
+     find_index ks s 0%nat = find_index ks s' 0%nat -> find_index ks s 0%nat <> None -> c = c') ->
+  (forall s rs vs mi v s' rs' vs' mi' v',
+     List.In (DEval s e rs vs) allev -> find_index rs me 0%nat = Some mi -> List.nth_error vs mi = Some (Some v) ->
+     List.In (DEval s' e rs' vs') allev -> find_index rs' me 0%nat = Some mi' -> List.nth_error vs' mi' = Some (Some v') ->
+     find_index ks s 0%nat = find_index ks s' 0%nat -> find_index ks s 0%nat <> None -> v = v') ->
+  (forall j, Nat.lt j (List.length ks) -> exists k b s,
+     List.nth_error blocks k = Some b /\ Z.lt (Z.add (Z.add h0 1) (Z.of_nat k)) (Z.add start L) /\
+     List.In (DCommit s e (cj j)) (snd b) /\ find_index ks s 0%nat = Some j /\ deg_ok t (cj j) = true) ->
+  (forall j, Nat.lt j (List.length ks) -> j <> i -> exists k b s rs vs mi,
+     List.nth_error blocks k = Some b /\ Z.lt (Z.add (Z.add h0 1) (Z.of_nat k)) (Z.add start L) /\
+     List.In (DEval s e rs vs) (snd b) /\ bytes_eqb s me = false /\ find_index ks s 0%nat = Some j /\
+     find_index rs me 0%nat = Some mi /\ List.nth_error vs mi = Some (Some (vj j)) /\ valid_eval (vj j) = true) ->
+  (forall j, Nat.lt j (List.length ks) -> verify i (vj j) (cj j) = true) ->
+  success C E P e xf.
+Proof. exact honest_run_succeeds. Qed.
+Print Assumptions C07_honest_run_succeeds.
+
+(* The starting state of C07_honest_run_succeeds exists whenever the eon starts: the event
+   EonStarted for eon e at height start, processed (without failing) by a keyper that is a member
+   of the config (keypers ks, threshold t, own index i) with a synchronised cache and no result
+   row for e, leaves an instance in the dealing phase that holds the own evaluation and nothing
+   else; the remaining events of that block keep live and deal (events_deal, live_cleaned in
+   Proofs/DKGLiveRun.v). *)
+Theorem C07_eon_start_creates_dealing_instance :
+  forall (C E P : Type) (commit_of : P -> C) (eval_of : P -> nat -> E) (verify : nat -> E -> C -> bool)
+         (deg_ok : N -> C -> bool) (valid_eval : E -> bool) (me : addr) (L : Z), Z.lt 0 L ->
+  forall (poly_for : N -> P) (e : N) (ks : list addr) (start : Z) (t : N) (i : nat) (allev : list (dev C E))
+         (x : st C E P) (act idx : N) (cfg : cfgrow) (x' : st C E P),
+  handle_event C E P commit_of eval_of verify deg_ok valid_eval me L poly_for x start (DEonStarted e act idx) = TOk x' ->
+  sm_sync (snd x) = true -> sm_iskeyper (snd x) = true ->
+  nget (db_cfgs C E P (fst x)) idx = Some cfg -> cf_keypers cfg = ks -> cf_threshold cfg = t ->
+  find_index ks me 0%nat = Some i -> res C E P x e = None ->
+  exists a, live C E P e a Dealing x' a /\ deal C E P deg_ok valid_eval me e ks start t i allev nil a /\
+            nth_opt (p_evals (a_pure a)) i = Some (eval_of (poly_for e) i) /\ p_n (a_pure a) = List.length ks.
+Proof. exact fresh_instance. Qed.
+Print Assumptions C07_eon_start_creates_dealing_instance.
+
+(* all hypotheses of C07_honest_run_succeeds hold for keyper A of the example run (two keypers,
+   threshold 2, phase length 2, eon 1 started in block 2) after block 2, reading blocks 3..8 *)
+Example C07_honest_run_succeeds_nonvacuous :
+  DkgEx.run DkgEx.A DkgEx.c10 (firstn 2 DkgEx.blocks) = Some LiveEx.x2 /\
+  live DkgEx.C DkgEx.E DkgEx.P DkgEx.n1 LiveEx.a2 Dealing LiveEx.x2 LiveEx.a2 /\
+  deal DkgEx.C DkgEx.E DkgEx.P DkgEx.deg_ok DkgEx.valid_eval DkgEx.A DkgEx.n1 (DkgEx.A :: DkgEx.B :: nil) LiveEx.h2 LiveEx.t2 0%nat
+       LiveEx.allev nil LiveEx.a2 /\
+  run_blocks DkgEx.C DkgEx.E DkgEx.P DkgEx.commit_of DkgEx.eval_of DkgEx.verify DkgEx.deg_ok DkgEx.valid_eval DkgEx.A DkgEx.L
+             (fun m => m) (fun _ => DkgEx.c10) LiveEx.lchf LiveEx.x2 LiveEx.rest = Some LiveEx.x8 /\
+  quiet DkgEx.C DkgEx.E DkgEx.n1 LiveEx.allev /\
+  (forall j, Nat.lt j 2 -> exists k b s,
+     List.nth_error LiveEx.rest k = Some b /\ Z.lt (Z.add (Z.add 2 1) (Z.of_nat k)) (Z.add 2 DkgEx.L) /\
+     List.In (DCommit s DkgEx.n1 (LiveEx.cj j)) (snd b) /\ find_index (DkgEx.A :: DkgEx.B :: nil) s 0%nat = Some j /\
+     DkgEx.deg_ok LiveEx.t2 (LiveEx.cj j) = true) /\
+  (forall j, Nat.lt j 2 -> DkgEx.verify 0%nat (LiveEx.vj j) (LiveEx.cj j) = true) /\
+  success DkgEx.C DkgEx.E DkgEx.P DkgEx.n1 LiveEx.x8.
+Proof.
+  split; first exact LiveEx.x2_is_reached. split; first exact LiveEx.ex_live. split; first exact LiveEx.ex_deal.
+  split; first exact LiveEx.ex_run. split; first exact LiveEx.ex_quiet. split; first exact LiveEx.ex_lc.
+  split; [exact LiveEx.ex_ver|exact LiveEx.ex_success].
+Qed.
 
 (* No false conviction, partial.  Proved, for every instance and state: a dealer is considered
    corrupt iff it has no accepted commitment, or one of its recorded apologies fails against its
